@@ -424,10 +424,20 @@ Fixpoint run_plan (bufs : list bytes) (bw : N) (s : sink) : N * sink * option io
       end
   end.
 
+(* avcC / hvcC store every parameter set behind a 16-bit length (fix 'finish returns an error for parameter
+   sets that do not fit ...'); the test is on the STORED configuration, not on the default one *)
+Definition param_sets_too_long (c : option video_config) : bool :=
+  match c with
+  | Some (CfgAvc a) => U16MAX <? N.max (len (avc_sps a)) (len (avc_pps a))
+  | Some (CfgHevc h) => U16MAX <? N.max (N.max (len (hevc_vps h)) (len (hevc_sps h))) (len (hevc_pps h))
+  | _ => false
+  end.
+
 Definition finalize (w : writer) (v : video_track) (m : option metadata) (fast_start : bool)
   : writer * fin_res :=
   if w_finalized w then (w, FinErr (FinIo IoOther))
   else if (U16MAX <? vt_width v) || (U16MAX <? vt_height v) then (w, FinErr (FinIo IoInvalidInput))
+  else if param_sets_too_long (w_vconfig w) then (w, FinErr (FinIo IoInvalidInput))
   else
     let c := effective_config w in
     let '(bufs, term) := if fast_start then finalize_fast_start w v m c else finalize_standard w v m c in
